@@ -323,6 +323,49 @@ def _named_aux_graphs(facts):
     return out
 
 
+def custom_nodes_typed_by_instantiation(facts, rep):
+    """C08.T: 'every context whose nodes type-check can be instantiated' - the type of a custom node is the output type of its
+    instantiation (possibly served from the cache keyed by Instantiation), never a shortcut that skips instantiate()"""
+    from .. import vcai as V
+    rep.rule("C08.T", "in TypeInferenceWorker::process_node, under Operation::Custom, the type registered for the node derives only "
+                      "from the instantiation cache or from get_type() of the output node of op.instantiate(..): a fast path that "
+                      "types a custom node without instantiating it accepts contexts that run_instantiation_pass then rejects")
+    pn = facts.body("type_inference::TypeInferenceWorker::process_node")
+    if not rep.anchor("C08.T", "type_inference::TypeInferenceWorker::process_node", pn):
+        return
+    vidx = {n: i for i, n in V.variants(facts)}
+    if not rep.anchor("C08.T", "Operation::Custom variant", "Custom" in vidx):
+        return
+    live = V.Interp(facts, vidx["Custom"]).run(pn).normal_blocks()
+    fl = Flow(facts, pn, live_blocks=set(live))
+    regs = [bb for bb, t in pn.calls() if bb in live and (callee_name(t) or "").endswith("TypeInferenceWorker::register_result")]
+    if not rep.anchor("C08.T", "process_node|register_result under Operation::Custom", regs):
+        return
+    inst = [bb for bb, t in pn.calls() if bb in live and (t["f"].get("def") or callee_name(t) or "").endswith("CustomOperation::instantiate")
+            or (bb in live and (callee_name(t) or "").endswith("CustomOperation::instantiate"))]
+    for k, bb in enumerate(regs):
+        t = pn.term(bb)
+        ors = {o for o in fl.origins(t["args"][2], (bb, None)) if o[0] != "const"}
+        bad = []
+        for o in ors:
+            if o[0] == "call" and o[2].startswith("std::collections::HashMap") and o[2].endswith("::get"):
+                continue
+            if o[0] == "param" and o[1] == 1 and o[2] and o[2][0] == "cached_instantiations":
+                continue        # served from the instantiation cache (keyed by Instantiation, C08.K)
+            if o[0] == "call" and o[2] == "graphs::Node::get_type":
+                src = fl.origins(pn.term(o[1])["args"][0], (o[1], None))
+                if src and all(x[0] == "call" and x[2] in ("graphs::Graph::get_output_node",) or (x[0] == "call" and x[1] in inst) for x in src):
+                    continue
+            if o[0] == "call" and o[1] in inst:
+                continue
+            bad.append(o)
+        rep.ob("C08.T", "process_node|custom-type#%d" % k, bool(ors) and not bad,
+               "the type registered for a custom node comes from the instantiation (cache or instantiate().output.get_type())"
+               if ors and not bad else
+               "a custom node is given a type that does not come from its instantiation (%s): the node type-checks without "
+               "instantiate() having validated the arguments" % sorted(str(x[:3]) for x in bad), pn.loc(bb))
+
+
 _run_n = run
 
 
@@ -330,3 +373,4 @@ def run(facts, rep, tier):
     _run_n(facts, rep, tier)
     glue_by_identity(facts, rep)
     behaviour_fields_in_identity(facts, rep)
+    custom_nodes_typed_by_instantiation(facts, rep)
